@@ -146,10 +146,11 @@ package handlers
 
 // Olla's own error answer on a translator route: the translator's error format when it has one
 //@ func (a *Application) writeTranslatorError
-//@   property C05 C14
+//@   property C05 C14 C19
 //@   safety
 //@   requires a != nil && w != nil && trans != nil && pr != nil && pr.requestLogger != nil && err != nil
 //@   modifies pr.hadError, ghost started, ghost status, ghost(w).hdr[all], gvar lastEncoded, ghost encW
+//@   ensures pr.hadError
 //@   ensures forall x ref :: x != w ==> ghost(x).started == old(ghost(x).started) && ghost(x).status == old(ghost(x).status)
 //@   ensures ghost(w).started && (!old(ghost(w).started) ==> ghost(w).status == statusCode) && (old(ghost(w).started) ==> ghost(w).status == old(ghost(w).status))
 
@@ -163,6 +164,7 @@ package handlers
 //@   ensures pxCalls == old(pxCalls) + 1 ==> pxEndpoints == endpoints
 //@   ensures pxCalls == old(pxCalls) + 1 ==> pxBody == bytesContent(bodyBytes)
 //@   ensures pxCalls == old(pxCalls) + 1 ==> pxPath == ptPath
+//@   ensures a.statsCollector == old(a.statsCollector) && pr.stats == old(pr.stats) && pr.stats != nil && trCount == old(trCount)
 //@   at call ProxyRequestToEndpoints 1 assert len(ghost(w).hdr["X-Olla-Mode"]) == 1 && ghost(w).hdr["X-Olla-Mode"][0] == "passthrough"
 
 // native(ty): the shipped profile for endpoint type ty declares native Anthropic support and has it enabled
@@ -173,17 +175,19 @@ package handlers
 // of the candidates and its profile declares native support; every capable candidate is offered; when passthrough is
 // not used the engine is not called here at all.
 //@ func (a *Application) tryPassthrough
-//@   property C14
+//@   property C14 C19
 //@   safety
-//@   requires a != nil && a.proxyService != nil && w != nil && r != nil && r.URL != nil && trans != nil && pr != nil && pr.requestLogger != nil && pr.stats != nil && allNonNil(endpoints)
+//@   requires a != nil && a.proxyService != nil && a.statsCollector != nil && w != nil && r != nil && r.URL != nil && trans != nil && pr != nil && pr.requestLogger != nil && pr.stats != nil && allNonNil(endpoints)
 //@   modifies *
 //@   loop 1 invariant forall k int :: 0 <= k && k < len(passthroughEndpoints) ==> passthroughEndpoints[k] != nil && member(passthroughEndpoints[k], endpoints) && native(passthroughEndpoints[k].Type)
 //@   loop 1 invariant forall j int :: 0 <= j && j < i$1 && native(endpoints[j].Type) ==> member(endpoints[j], passthroughEndpoints)
 //@   at call executePassthroughRequest 1 assert forall k int :: 0 <= k && k < len(passthroughEndpoints) ==> passthroughEndpoints[k] != nil && member(passthroughEndpoints[k], endpoints) && native(passthroughEndpoints[k].Type)
 //@   at call executePassthroughRequest 1 assert forall j int :: 0 <= j && j < len(endpoints) && native(endpoints[j].Type) ==> member(endpoints[j], passthroughEndpoints)
 //@   at call executePassthroughRequest 1 assert len(passthroughEndpoints) > 0
-//@   ensures !res ==> pxCalls == old(pxCalls)
+//@   ensures !res ==> pxCalls == old(pxCalls) && trCount == old(trCount)
+//@   ensures res ==> trCount == old(trCount) + 1
 //@   ensures !res ==> ghost(w).started == old(ghost(w).started) && ghost(w).status == old(ghost(w).status) && ghost(w).hdr == old(ghost(w).hdr) && ghost(w).hdr["Content-Type"] == old(ghost(w).hdr["Content-Type"])
+//@   ensures a.statsCollector == old(a.statsCollector) && pr.stats == old(pr.stats)
 //@   ensures !res ==> a.proxyService == old(a.proxyService) && a.logger == old(a.logger) && pr.requestLogger == old(pr.requestLogger) && pr.stats == old(pr.stats) && r.URL == old(r.URL)
 //@   ensures pxCalls == old(pxCalls) + 1 ==> res && pxBody == bytesContent(bodyBytes) && pxPath == ptPath && (forall k int :: 0 <= k && k < len(pxEndpoints) ==> member(pxEndpoints[k], endpoints))
 //@   ensures pxCalls == old(pxCalls) || pxCalls == old(pxCalls) + 1
@@ -200,9 +204,10 @@ package handlers
 //@   safety
 //@   requires a != nil && a.proxyService != nil && w != nil && r != nil && r.URL != nil && trans != nil && pr != nil && pr.requestLogger != nil && pr.stats != nil
 //@   requires allocated(ghost(w).hdr)
-//@   modifies gvar pxCalls, gvar pxEndpoints, gvar pxPath, gvar pxBody, gvar lastEncoded, ghost started, ghost status, ghost hdr, ghost(w).hdr[all], ghost encW, ghost remaining, ghost backing, ports.RequestStats.RoutingDecision, object pr.stats, gvar unflushed
+//@   modifies gvar pxCalls, gvar pxEndpoints, gvar pxPath, gvar pxBody, gvar lastEncoded, ghost started, ghost status, ghost hdr, ghost(w).hdr[all], ghost encW, ghost remaining, ghost backing, ports.RequestStats.RoutingDecision, object pr.stats, gvar unflushed, pr.hadError
 //@   ensures pxCalls == old(pxCalls) + 1 && pxEndpoints == endpoints && pxPath == old(r.URL.Path) && pxBody == old(ghost(r.Body).remaining)
 //@   ensures res == nil ==> ghost(w).started
+//@   ensures !old(ghost(w).started) && ghost(w).started && ghost(w).status >= 400 ==> pr.hadError
 //@   ensures res != nil && !ghost(w).started ==> ghost(w).hdr["Content-Type"] == old(ghost(w).hdr["Content-Type"])
 //@   at return 3 assert recorder.status < 400
 //@   at return 2 assert recorder.status >= 400 && ghost(w).started && (!old(ghost(w).started) ==> ghost(w).status == recorder.status)
@@ -236,6 +241,7 @@ package handlers
 //@   requires a != nil && w != nil && recorder != nil && trans != nil
 //@   modifies ghost started, ghost status, ghost(w).hdr[all], gvar unflushed
 //@   ensures res == nil ==> ghost(w).started && (!old(ghost(w).started) ==> ghost(w).status == 200)
+//@   ensures !old(ghost(w).started) && ghost(w).started ==> ghost(w).status == 200
 //@   ensures res != nil && !ghost(w).started ==> ghost(w).hdr["Content-Type"] == old(ghost(w).hdr["Content-Type"])
 
 // ---- C05, streaming translation. The engine runs in a goroutine and writes into the streaming recorder while the
@@ -313,7 +319,7 @@ package handlers
 //@   replay handlers_translation_stream_noanswer
 //@   safety
 //@   requires a != nil && a.proxyService != nil && w != nil && r != nil && trans != nil && pr != nil && pr.requestLogger != nil && pr.stats != nil
-//@   modifies gvar pxCalls, gvar pxEndpoints, gvar pxPath, gvar pxBody, gvar lastEncoded, ghost started, ghost status, ghost hdr, ghost(w).hdr[all], ghost encW, ghost remaining, ghost backing, ports.RequestStats.RoutingDecision, object pr.stats, gvar unflushed
+//@   modifies gvar pxCalls, gvar pxEndpoints, gvar pxPath, gvar pxBody, gvar lastEncoded, ghost started, ghost status, ghost hdr, ghost(w).hdr[all], ghost encW, ghost remaining, ghost backing, ports.RequestStats.RoutingDecision, object pr.stats, gvar unflushed, pr.hadError
 //@   at call transformStreamAndWaitForProxy 1 assume streamRecorder.answered == ghost(streamRecorder).started
 //@   at call transformStreamAndWaitForProxy 1 assert ghost(streamRecorder).started && streamRecorder.status < 400
 
@@ -327,6 +333,8 @@ package handlers
 //@   modifies *
 //@   at call executeTranslatedNonStreamingRequest 1 assert r.URL.Path == stripped(transformedReq.TargetPath, "/olla/") || transformedReq.TargetPath == ""
 //@   ensures !transformedReq.IsStreaming ==> ghost(w).started
+//@   ensures a.statsCollector == old(a.statsCollector) && pr.stats == old(pr.stats) && pr.stats != nil && trCount == old(trCount)
+//@   ensures !transformedReq.IsStreaming && ghost(w).started && ghost(w).status >= 400 ==> pr.hadError
 
 // request bookkeeping at the top of every proxy-like handler (no client output, no engine call)
 //@ func (a *Application) initializeProxyRequest
@@ -350,9 +358,9 @@ package handlers
 // non-2xx status in the translator's error format and the engine is never called; otherwise passthrough is tried
 // first and translation is the fallback.
 //@ func (a *Application) translationHandler$1
-//@   property C05 C14
+//@   property C05 C14 C19
 //@   safety
-//@   requires a != nil && a.proxyService != nil && a.logger != nil && w != nil && r != nil && r.URL != nil && r.Body != nil && trans != nil
+//@   requires a != nil && a.proxyService != nil && a.logger != nil && a.statsCollector != nil && w != nil && r != nil && r.URL != nil && r.Body != nil && trans != nil
 //@   requires !ghost(w).started && len(ghost(w).hdr["Content-Type"]) == 0 && allocated(ghost(w).hdr)
 //@   modifies *
 //@   at return 1 assert ghost(w).started && ghost(w).status == 400 && pxCalls == old(pxCalls)
@@ -362,6 +370,14 @@ package handlers
 //@   at return 5 assert ghost(w).started && pxCalls == old(pxCalls) && ghost(w).status >= 400
 //@   at return 5 assert decisionCount == old(decisionCount) + 1 && lastDecision != nil && lastDecision.Action == "rejected" && lastDecision.StatusCode >= 400 ==> ghost(w).status == lastDecision.StatusCode
 //@   at return 7 assert ghost(w).started && ghost(w).status == 400 && pxCalls == old(pxCalls)
+//@   at return 1 assert trCount == old(trCount) + 1 && !trSuccess
+//@   at return 2 assert trCount == old(trCount) + 1 && !trSuccess
+//@   at return 3 assert trCount == old(trCount) + 1 && !trSuccess
+//@   at return 4 assert trCount == old(trCount) + 1 && !trSuccess
+//@   at return 5 assert trCount == old(trCount) + 1 && !trSuccess
+//@   at return 7 assert trCount == old(trCount) + 1 && !trSuccess
+//@   at call recordTranslatorMetrics 7 assert !transformedReq.IsStreaming && ghost(w).started && ghost(w).status >= 400 ==> pr.hadError
+//@   ensures trCount == old(trCount) + 1
 
 // ---- C05: the generic proxy route. Failing before a backend was tried is answered 502 with an error body and the
 // engine is not called; an engine failure that left the response untouched is answered 502 as well.
